@@ -220,3 +220,29 @@ Example own_mark_output_differs :
   hnode (fun b => b) om_classes (mark om_heap 0 1) (fun _ => None) 5 [] 0
   <> hnode (fun b => b) om_classes om_heap (fun _ => None) 5 [] 0.
 Proof. vm_compute. intros E. discriminate E. Qed.
+
+(* ---- the open finding C03:collision:init-tasks-of-producing-task, stated in the model -----------------------------
+   Learn().submit(init_tasks=[Init(v=1)]) and Learn().submit(init_tasks=[Init(v=2)]) are two jobs (their full
+   identifiers differ), but the configuration that embeds their outputs gets the same raw AND full identifier in both
+   plans: the task mark is hashed through the RAW identifier of the producing task, which does not see its init tasks.
+   H is the identity: identifiers are the hashed streams.                                                           *)
+Definition it_classes : classes :=
+  [ {| c_tid := [105]%N;                       (* "i": the init task, one parameter v *)
+       c_args := [{| a_name := [118]%N; a_ignored := false; a_gen := false; a_const := false;
+                     a_required := true; a_default := None |}] |};
+    {| c_tid := [108]%N; c_args := [] |};      (* "l": the learner *)
+    {| c_tid := [109]%N; c_args := [] |};      (* "m": its output *)
+    {| c_tid := [101]%N;                       (* "e": what embeds the output *)
+       c_args := [{| a_name := [109]%N; a_ignored := false; a_gen := false; a_const := false;
+                     a_required := true; a_default := None |}] |} ].
+Definition it_heap (v : Z) : heap :=
+  [ {| n_cls := 0; n_fields := [([118]%N, VInt v)]; n_meta := None; n_task := None; n_pre := []; n_init := [] |};
+    {| n_cls := 1; n_fields := []; n_meta := None; n_task := None; n_pre := []; n_init := [0] |};
+    {| n_cls := 2; n_fields := []; n_meta := None; n_task := Some 1; n_pre := []; n_init := [] |};
+    {| n_cls := 3; n_fields := [([109]%N, VRef 2)]; n_meta := None; n_task := None; n_pre := []; n_init := [] |} ].
+
+Example init_tasks_of_producer_collide :
+  full_pure (fun b => b) it_classes (it_heap 1) 9 1 <> full_pure (fun b => b) it_classes (it_heap 2) 9 1      (* two jobs *)
+  /\ (exists d, full_pure (fun b => b) it_classes (it_heap 1) 9 3 = Ok d
+                /\ full_pure (fun b => b) it_classes (it_heap 2) 9 3 = Ok d).                                (* one embedder *)
+Proof. split; [vm_compute; intros E; discriminate E|]. eexists. split; vm_compute; reflexivity. Qed.
